@@ -21,6 +21,8 @@ import ast
 import inspect
 import os
 
+import numpy as np
+
 from pvc.core import ob_eval, guarded, Ob, PROVED, REFUTED, UNDECIDED, parallel
 from pvc.explore import explore
 from pvc.sym import R
@@ -261,15 +263,78 @@ def sec_selfcheck(rep, seed):
     rep.add(Ob("C07/selfcheck/canary-missing-summand-refuted", "canary", PROVED if bad else "error", "ratfun", 0, f"refuted={len(bad)}"))
 
 
+def sec_finite_kernels(rep, tier):
+    """Additivity of the OPERATORS follows from additivity of the kernel lists only while every
+    kernel value is finite: Runner.replace_nans_with_0 zeroes non-finite entries AFTER the kernels of
+    an observable are summed, and nan_to_0(a + b) != nan_to_0(a) + nan_to_0(b) when b is NaN -- the
+    total would lose its light part where a heavy kernel is NaN.  In-repo closed formulas are finite
+    on their domain (C03 definedness); the one tabulated coefficient, the N3LO massive gluon/singlet
+    spline of heavy/n3lo, is finite everywhere iff all its B-spline coefficients and knots are."""
+    from yadism.coefficient_functions.heavy import n3lo
+
+    rep.under_contract(n3lo.interpolator)
+    n3lo.interpolators.clear()
+    for coeff in ("C2g", "C2q", "CLg", "CLq"):
+        for nf in (3, 4, 5):
+            for var in (-1, 0, 1):
+                rep.cases += 1
+                try:
+                    it = n3lo.interpolator(coeff, nf=nf, variation=var)
+                    tx, ty = it.get_knots()
+                    c = it.get_coeffs()
+                    samples = [(xi, eta, float(it(xi, eta)[0, 0])) for xi in (0.5, 8.77, 2.0e3) for eta in (1e-3, 1.0, 50.0)]
+                    bad = [s_ for s_ in samples if not np.isfinite(s_[2])]
+                    ok = bool(np.isfinite(c).all() and np.isfinite(tx).all() and np.isfinite(ty).all() and not bad)
+                    detail = f"{c.size} spline coefficients, {int((~np.isfinite(c)).sum())} non-finite; samples {samples[:2]}"
+                    inputs = {} if ok else {"coeff": coeff, "nf": nf, "variation": var, "xi": (bad or samples)[0][0], "eta": (bad or samples)[0][1], "value": repr((bad or samples)[0][2])}
+                except Exception as e:  # noqa
+                    ok, detail, inputs = False, f"{type(e).__name__}: {e}", {"coeff": coeff, "nf": nf, "variation": var}
+                rep.add(ob_eval(f"C07/finite-kernels/heavy.n3lo.interpolator({coeff}, nf={nf}, variation={var}) is finite everywhere", ok, detail=detail, inputs=inputs, replay={"confirmed": True, "python": f"from yadism.coefficient_functions.heavy.n3lo import interpolator; interpolator('{coeff}', nf={nf}, variation={var})(8.77, 1.0)"}))
+    n3lo.interpolators.clear()
+    # bounded companion on a real run: FFNS, three light flavours, all four orders
+    import warnings
+
+    import yadism
+
+    pts = [{"x": 0.1, "Q2": 20.0}]
+    for kind in ("F2", "FL") if tier == "thorough" else ("F2",):
+        rep.cases += 1
+        names = [f"{kind}_{fl}" for fl in ("total", "light", "charm", "bottom", "top")]
+        try:
+            with warnings.catch_warnings():
+                warnings.simplefilter("ignore")
+                out = yadism.run_yadism(H.base_theory(FNS="FFNS", NfFF=3, PTO=3, PTODIS=3), H.base_obs(prDIS="EM", interpolation_xgrid=[1e-3, 1e-2, 0.1, 0.3, 0.6, 1.0], interpolation_polynomial_degree=2, observables={n: pts for n in names}))
+            tot = out[names[0]][0].orders
+            worst, where = 0.0, None
+            keys = set(tot)
+            for n in names[1:]:
+                keys |= set(out[n][0].orders)
+            for k in sorted(keys):
+                parts = sum(out[n][0].orders[k][0] for n in names[1:] if k in out[n][0].orders)
+                t = tot[k][0] if k in tot else 0.0
+                scale = max(1e-12, float(np.max(np.abs(parts))), float(np.max(np.abs(t))))
+                dev = float(np.max(np.abs(t - parts))) / scale
+                if dev > worst:
+                    worst, where = dev, k
+            ok = worst <= 1e-8 and (3, 0, 0, 0) in tot and float(np.max(np.abs(tot[(3, 0, 0, 0)][0]))) > 0
+            detail = f"max relative deviation {worst:.2e} at order {where}; |total(3,0,0,0)|max = {float(np.max(np.abs(tot[(3, 0, 0, 0)][0]))):.3g}"
+        except Exception as e:  # noqa
+            ok, worst, where, detail = False, None, None, f"{type(e).__name__}: {e}"
+        o = ob_eval(f"C07/bounded/real FFNS NfFF=3 run at N3LO: {kind}_total = light + charm + bottom + top per operator entry (x=0.1, Q2=20, 6-node grid)", ok, kind="bounded", detail=detail, inputs={} if ok else {"kind": kind, "x": 0.1, "Q2": 20.0, "order": str(where), "observed": detail}, replay={"confirmed": True, "python": "run_yadism(FFNS NfFF=3 PTO=3, {kind}_total/light/charm/bottom/top at x=0.1, Q2=20) and compare total with the sum"})
+        o.bounded = True
+        rep.add(o)
+
+
 def run(rep, tier, seed, only=None):
     rep.assume(
+        "finite kernels: additivity of the kernel lists lifts to the operators because the NaN clean-up acts after the sum and is the identity on finite values -- in-repo formulas finite on their domain (C03), the tabulated N3LO massive coefficient finite everywhere (checked: all B-spline coefficients finite), LeProHQ values finite away from the documented small-x region (A-ext, unchecked)",
         "views: equal (coefficient class, constructor data, order window) denote equal distributions (read-set lemma + C03); compute_local is linear in the parton weights (C01)",
         "NC/EM weights are the uninterpreted contract values w(|pid|,type) of get_weight with the nc_pos_charge early return [|pid|=q]*w (proved under C02); CC weights are their contract values 2*sum(masked |V|^2) with a symbolic CKM matrix",
         "interpretation of the FFNS partition as in DESIGN C07 (massive flavours are summands; ZM-treated flavours are restrictions of the massless light part; missing diagrams live in F_light)",
         "cells whose dispatch raises are C16's matter and are skipped here (counted)",
     )
     rep.stub("CouplingConstants -> WStub", "eko nf_default -> enumerated nf", "LeProHQ/adani/splines never evaluated (only kernels are collected)")
-    for nm, f in (("lattices", lambda r: sec_lattices(r, tier)), ("poscharge", sec_poscharge_contract), ("kernel", sec_kernel), ("readset", sec_readset), ("weightsframe", H.weights_frame), ("xslift", lambda r: __import__("contracts.c11", fromlist=["x"]).sec_get_result(r)), ("schemedispatch", lambda r: H.scheme_families(r, tier))):
+    for nm, f in (("lattices", lambda r: sec_lattices(r, tier)), ("poscharge", sec_poscharge_contract), ("kernel", sec_kernel), ("readset", sec_readset), ("weightsframe", H.weights_frame), ("xslift", lambda r: __import__("contracts.c11", fromlist=["x"]).sec_get_result(r)), ("schemedispatch", lambda r: H.scheme_families(r, tier)), ("finitekernels", lambda r: sec_finite_kernels(r, tier))):
         if only and only not in nm:
             continue
         rep.add(guarded(f"C07/{nm}", lambda f=f: (f(rep), [])[1]))
